@@ -149,7 +149,7 @@ def run(ctx):
     for b in fr:
         for tail in ("eof", "silence"):
             script = [["D", b.hex()]] + ([["T"], ["T"]] if tail == "silence" else [])
-            fscs.append(({"fire": 0, "skip": 0, "script": script, "keys": KEYS, "ops": ["rd1"] * 6 + ["rv"] * 2}, b, tail))
+            fscs.append(({"fire": 0, "skip": 0, "script": script, "keys": KEYS, "ops": ["rd1"] * 6 + ["rv"] * 2, "trace": int(tail == "eof" and len(fscs) % 4 == 0)}, b, tail))
             if tail == "eof" and any(x >= 0x80 for x in b[2:]):
                 # validation off and the message-level call: nothing may leak from the decoding of text either
                 fscs.append(({"fire": 0, "skip": 1, "script": script, "keys": KEYS, "ops": ["rv"] * 6}, b, tail))
@@ -158,7 +158,7 @@ def run(ctx):
         line, s = wsrun.run_impl(sc)
         results = line.split(";")[0].split("|")
         T.case(("fr", b, tail), nontrivial=len(b) > 2, bucket="frames", sample={"bytes": b[:24].hex(), "then": tail, "results": results[:3]})
-        pub = {"phase": "frames", "bytes": b.hex(), "then": tail, "skip": sc["skip"], "ops": sc["ops"]}
+        pub = {"phase": "frames", "bytes": b.hex(), "then": tail, "skip": sc["skip"], "ops": sc["ops"], "trace": sc.get("trace", 0)}
         for r in results:
             if r.startswith("raise:") and not documented(r[6:]):
                 T.fail("spec", pub, "a documented exception", r, {"site": "recv", "cls": "internal-exception", "exn": r[6:]},
@@ -205,6 +205,6 @@ def replay(ctx, sc):
         res = line.split(";")[0]
         return None if not (res.startswith("raise:") and not documented(res[6:])) else {"result": res}
     script = [["D", b.hex()]] + ([["T"], ["T"]] if sc["then"] == "silence" else [])
-    line, s = wsrun.run_impl({"fire": 0, "skip": sc.get("skip", 0), "script": script, "keys": KEYS, "ops": sc.get("ops") or ["rd1"] * 6 + ["rv"] * 2})
+    line, s = wsrun.run_impl({"fire": 0, "skip": sc.get("skip", 0), "script": script, "keys": KEYS, "ops": sc.get("ops") or ["rd1"] * 6 + ["rv"] * 2, "trace": sc.get("trace", 0)})
     bad = [r for r in line.split(";")[0].split("|") if r.startswith("raise:") and not documented(r[6:])]
     return {"results": bad} if bad else None
